@@ -160,4 +160,17 @@ Qed.
 
 Example levels_value : levels ex_doc 2 (op_sels ex_doc) = Some 2%nat /\ default_fuel ex_doc = 8%nat.
 Proof. vm_compute. split; reflexivity. Qed.
+
+(** round 8: without a value for $v the condition of @skip cannot be evaluated: [doc_ok] fails,
+    [doc_ok_nodirs] holds, and the executor still finishes (u is left out, the directive reported) *)
+Example nodirs_instance :
+  doc_ok ex_schema ex_doc [] ex_fuel ex_fuel = false /\
+  doc_ok_nodirs ex_schema ex_doc [] ex_fuel ex_fuel = true /\
+  exists d e1 e2 e3, run fixed ex_schema ex_doc [] ex_fuel ex_W = Done (Some d) [e1; e2; e3] /\
+                     e_path e1 = [] /\ d = JObj [ (nm "o", JNull); (nm "l", JNull); (nm "ln", JArr [JInt 1; JInt 2]);
+                                                  (nm "i", JObj [(nm "s", JStr (nm "y")); (nm "x", JInt 3)]) ].
+Proof.
+  split; [vm_compute; reflexivity|]. split; [vm_compute; reflexivity|].
+  eexists. eexists. eexists. eexists. vm_compute. repeat split; reflexivity.
+Qed.
 End A.
